@@ -62,6 +62,22 @@ def impl(case):
     from phylib.io import traces as T
     from phylib.utils import Bunch
     op = case['op']
+    if op == 'model_store':
+        with C.scratch_dir() as d:
+            m = D.load(D.write_dataset(d, case['spec']))
+            try:
+                np.random.seed(case.get('rs', 0))
+                m.save_spikes_subset_waveforms(max_n_spikes_per_template=case['nst'], max_n_channels=case['nc'])
+                sw = m.spike_waveforms
+                if sw is None or np.ndim(sw.spike_ids) == 0 or len(sw.spike_ids) < 2:
+                    return dict(skip=True)
+                out = m.get_waveforms(np.array(case['spike_ids'], dtype=np.int64), list(case['ch']))
+                res = dict(vals=np.asarray(out).astype(np.int64).tolist(), shape=list(out.shape),
+                           store_ids=[int(x) for x in sw.spike_ids],
+                           store_channels=np.asarray(sw.spike_channels).astype(np.int64).tolist())
+            finally:
+                m.close()
+        return res
     if op == 'model':
         with C.scratch_dir() as d:
             m = D.load(D.write_dataset(d, case['spec']))
@@ -115,7 +131,7 @@ def _spec_raw(case):
 
 def model_query(case, impl_res):
     op = case['op']
-    if op == 'model':
+    if op in ('model', 'model_store'):
         spec = case['spec']
         raw = _spec_raw(case)
         cm = spec['channel_map']
@@ -135,7 +151,7 @@ def model_query(case, impl_res):
 
 def oracle(case):
     op = case['op']
-    if op == 'model':
+    if op in ('model', 'model_store'):
         spec = case['spec']
         raw = _spec_raw(case)[:, spec['channel_map']]
         n = len(spec['templates'][0])
@@ -185,6 +201,24 @@ def judge(case, impl_res, ans):
         return 'SPEC: real code raised %s (%s) at %s on an in-domain input' % (
             impl_res['raised'], impl_res['msg'], impl_res['where'])
     ok = impl_res['ok']
+    if op == 'model_store':
+        if ok.get('skip'):
+            return None
+        got = np.array(ok['vals'])
+        e = np.array(exp)
+        if got.shape != e.shape:
+            return 'SPEC: get_waveforms (store present) returned shape %s' % (list(got.shape),)
+        stored = {sid: row for sid, row in zip(ok['store_ids'], ok['store_channels'])}
+        if all(q in stored for q in case['spike_ids']):
+            # store route: claimed on the channels the store holds for that spike
+            for i, q in enumerate(case['spike_ids']):
+                for j, c in enumerate(case['ch']):
+                    if c in stored[q] and not np.array_equal(got[i, :, j], e[i, :, j]):
+                        return 'SPEC: store lookup differs from the raw window (spike %d, channel %d)' % (q, c)
+            return None
+        if not np.array_equal(got, e):      # some spike is not in the store: raw data must be used
+            return 'SPEC: get_waveforms for a spike outside the subset store differs from the raw window'
+        return None
     if op == 'export':
         if ok['shape'] != [len(case['spikes']), case['n'], case['nloc']]:
             return 'SPEC: exported file loads with shape %s' % ok['shape']
@@ -198,14 +232,17 @@ def judge(case, impl_res, ans):
 
 
 def nontrivial(case):
-    if case['op'] == 'model':
+    if case['op'] in ('model', 'model_store'):
         return len(case['spike_ids']) >= 1
     return len(case['spikes']) >= 2 or any(s < case['n'] // 2 or s + case['n'] - case['n'] // 2 > case['dur'] for s in case['spikes'])
 
 
 def tally(rep, case, impl_res, ans):
     rep.count('op:' + case['op'])
-    if case['op'] == 'model':
+    if case['op'] in ('model', 'model_store'):
+        if case['op'] == 'model_store' and 'ok' in impl_res and not impl_res['ok'].get('skip'):
+            st = set(impl_res['ok']['store_ids'])
+            rep.count('store_request:%s' % ('all_stored' if all(q in st for q in case['spike_ids']) else 'some_unstored'))
         return
     rep.count('backend:' + case['backend'])
     rep.count('sdtype:' + case.get('sdtype', 'int64'))
@@ -224,7 +261,7 @@ def tally(rep, case, impl_res, ans):
 
 def classify(case, impl_res, ans, why):
     d = dict(op=case['op'], kind=why.split(':')[0], raised=impl_res.get('raised'), where=impl_res.get('where'))
-    if case['op'] != 'model':
+    if case['op'] not in ('model', 'model_store'):
         chs = case.get('ch') or [c for row in case.get('chans', []) for c in row]
         d.update(unsigned=case.get('sdtype', 'int64').startswith('u'), neg1=(-1 in chs), chkind=case.get('chkind', 'list'),
                  short=case['n'] > case['dur'] if 'dur' in case else None,
@@ -235,7 +272,7 @@ def classify(case, impl_res, ans, why):
 
 
 def shrink(case):
-    if case['op'] == 'model':
+    if case['op'] in ('model', 'model_store'):
         if len(case['spike_ids']) > 1:
             for i in range(len(case['spike_ids'])):
                 c = dict(case); c['spike_ids'] = case['spike_ids'][:i] + case['spike_ids'][i + 1:]
@@ -360,3 +397,7 @@ def gen(tier, rng):
         yield dict(p=PID, op='model', spec=spec, spike_ids=[rng.randrange(ns) for _ in range(rng.randrange(1, 5))],
                    ch=rng.sample(range(nc), rng.randrange(1, nc + 1)) + ([-1] if rng.random() < .3 else []),
                    chkind=rng.pick(['array', 'list']))
+        if ns >= 4:
+            yield dict(p=PID, op='model_store', spec=spec, nst=rng.randrange(1, 3), nc=nc, rs=rng.randrange(1000),
+                       spike_ids=sorted(rng.sample(range(ns), rng.randrange(1, 4))),
+                       ch=rng.sample(range(nc), rng.randrange(1, nc + 1)))
